@@ -138,7 +138,7 @@ Proof.
   - destruct (wfail (set_txid s v')).
     + pose proof (finish_good (set_wctl (set_txid s v') false 0) r (RErr ReIo) He) as G. destruct (finish _ r (RErr ReIo)) as [s' o].
       apply good_cons_silent; [reflexivity|discriminate|]. apply good_cons_silent; [reflexivity|discriminate|]. exact G.
-    + destruct (wdelay (set_txid s v') =? 0); unfold good, consistent; cbn; rewrite He; (split; [reflexivity|]); (split; [auto|]);
+    + destruct (write_now (set_txid s v')); unfold good, consistent; cbn; rewrite He; (split; [reflexivity|]); (split; [auto|]);
       intros H; repeat (destruct H as [H|H]; try discriminate); destruct H.
   - pose proof (finish_good (set_txid s v') r (RErr ReBadRequest) He) as G. destruct (finish _ r (RErr ReBadRequest)) as [s' o].
     apply good_cons_silent; [reflexivity|discriminate|]. exact G.
@@ -209,7 +209,7 @@ Proof.
   assert (Hq : forall s' o, ph s' = ph s -> enabled s' = enabled s -> listens_of o = [] -> ~ dials o -> good last (s', o)).
   { intros s' o H1 H2 H3 H4. apply (quiet_good s); auto. }
   assert (Hnil : good last (s, [])) by (apply Hq; auto; intros []).
-  destruct e as [c st| | |ok|tx k|tx k| | | | | |dt| |dt|]; cbn [step].
+  destruct e as [c st| | |ok|tx k|tx k| | | | | |dt| |dt| | |k| ]; cbn [step].
   - destruct (Nat.eqb (handles s) 0); [exact Hnil|].
     assert (Hdrop : good last (s, drop_queue [c])) by (apply Hq; auto; [apply listens_drop|apply no_dial_drop]).
     destruct (ph s) eqn:Eph; try congruence;
@@ -239,19 +239,27 @@ Proof.
   - apply Hq; auto; intros [].
   - apply Hq; auto; intros [].
   - destruct (ph s) eqn:Eph; try exact Hnil.
-    + destruct (fire cfg until <=? now s); [|exact Hnil]. destruct Hc as [-> He].
-      unfold good, consistent. cbn. rewrite He. split; [reflexivity|]. split; [auto|]. intros [H|[]]. discriminate.
+    + destruct (Nat.eqb (wpark s) 0 && (fire cfg until <=? now s)).
+      * destruct Hc as [-> He]. unfold good, consistent. cbn. rewrite He. split; [reflexivity|]. split; [auto|]. intros [H|[]]. discriminate.
+      * destruct (fire cfg (wdl s) <=? now s); [|exact Hnil]. destruct Hc as [-> He]. apply finish_good. exact He.
     + destruct (fire cfg deadline <=? now s); [|exact Hnil]. destruct Hc as [-> He]. apply finish_good. exact He.
     + destruct (fire cfg until <=? now s); [|exact Hnil]. destruct Hc as [Hw He]. apply loop_top_good; [auto|congruence].
   - apply Hq; auto; intros [].
   - destruct (ph s) eqn:Eph; try congruence; apply crash_good.
+  - apply Hq; auto; intros [].
+  - exact Hnil.
+  - destruct (wpark s) as [|n]; [exact Hnil|]. cbn [ph set_wpark].
+    destruct (ph s) eqn:Eph; try (apply Hq; auto; intros []; fail).
+    destruct (Nat.eqb n 0 && _); [|apply Hq; auto; intros []].
+    destruct Hc as [-> He]. unfold good, consistent. cbn. rewrite He. split; [reflexivity|]. split; [auto|]. intros [H|[]]. discriminate.
 Qed.
 
 (* a terminated task stays terminated and tells the listener nothing more *)
 Lemma done_silent s e : ph s = PDone -> ph (fst (step cfg s e)) = PDone /\ listens_of (snd (step cfg s e)) = [] /\ ~ dials (snd (step cfg s e)).
 Proof.
   intros Hd. destruct e; cbn [step]; rewrite ?Hd; cbn [listens reading fst snd]; try (repeat split; auto; intros []; fail).
-  destruct (Nat.eqb (handles s) 0); cbn [fst snd]; [repeat split; auto; intros []|]. repeat split; [exact Hd|apply listens_drop|apply no_dial_drop].
+  - destruct (Nat.eqb (handles s) 0); cbn [fst snd]; [repeat split; auto; intros []|]. repeat split; [exact Hd|apply listens_drop|apply no_dial_drop].
+  - destruct (wpark s) as [|n]; cbn [ph set_wpark fst snd]; rewrite ?Hd; cbn [fst snd]; repeat split; auto; intros [].
 Qed.
 
 (* lifted to runs *)
